@@ -161,6 +161,45 @@ Theorem C11_ring_rotation :
 Proof. exact ring_rotation. Qed.
 Print Assumptions C11_ring_rotation.
 
+(* Every Flush sends buffer (number of earlier Flushes) mod nb: in every
+   reachable state of the ring system in which main is between two Flushes. *)
+Theorem C11_ring_flush_buffer :
+  forall (nb : nat) (mem0 : nat -> list N) (g : ring) (b : nat), reachable nb mem0 g ->
+    g_main g = MFill -> g_cur g = Some b -> b = (length (g_flushed g) mod nb)%nat.
+Proof. exact ring_flush_buffer. Qed.
+Print Assumptions C11_ring_flush_buffer.
+
+(* The functional sender model and the ring system agree.  For every number
+   of buffers > 0, every buffer size, every op sequence, and ANY reachable
+   state of the ring system (any interleaving of main and writer) in which
+   main is between two Flushes and has flushed the chunks the functional
+   sender computes: main's write buffer is the buffer the functional model
+   names (its "(cur+1) mod numBuffers" is what the channels deliver), the
+   i-th chunk of the functional model is in buffer i mod numBuffers (the
+   buffer the ring's main held at its i-th Flush, C11_ring_flush_buffer), and
+   the conn.Write calls made so far are a prefix of the model's chunks. *)
+Theorem C11_sender_ring_agree :
+  forall (nbuf wcap : N), (0 < nbuf)%N -> forall (ops : list op) (mem0 : nat -> list N) (g : ring),
+    let s := run_sender nbuf wcap ops in
+    reachable (N.to_nat nbuf) mem0 g -> g_main g = MFill ->
+    g_flushed g = wire_chunks s ->
+    g_cur g = Some (N.to_nat (s_cur s)) /\
+    map fst (s_chunks s) = ids nbuf (length (s_chunks s)) /\
+    (exists rest, wire_chunks s = g_written g ++ rest).
+Proof. exact sender_ring_agree. Qed.
+Print Assumptions C11_sender_ring_agree.
+
+(* ... and such executions exist for every op sequence (the hypothesis above is
+   not vacuous): an execution whose main flushes exactly the functional
+   model's chunks and whose writer has written all of them. *)
+Theorem C11_sender_ring_exists :
+  forall (nbuf wcap : N) (ops : list op) (mem0 : nat -> list N), (0 < nbuf)%N -> (16 <= wcap)%N ->
+    exists g, reachable (N.to_nat nbuf) mem0 g /\ g_main g = MFill /\
+              g_flushed g = wire_chunks (run_sender nbuf wcap ops) /\
+              g_written g = wire_chunks (run_sender nbuf wcap ops).
+Proof. exact sender_ring_exists. Qed.
+Print Assumptions C11_sender_ring_exists.
+
 (* The constants of /repo/p2p/protocol.go (regenerated into Gen/Consts.v on
    every run) satisfy the size hypotheses of the theorems above. *)
 Theorem C11_real_sizes :
